@@ -353,9 +353,18 @@ pub fn check_partition(flat: &Snap, part: &Snap) -> Vec<Finding> {
             let Some(pe) = part.preds(h).first().copied() else { continue };
             let (Some(a), Some(b)) = (sgpos(pe.src), sgpos(v)) else { continue };
             if a >= b {
+                let pat = ref_fed_by_own_loop_exit(part, v, pe.src);
                 out.push(f(
-                    "S6-reference-order",
-                    format!("operator {} references handoff {} produced by {}: producer subgraph at position {}, user at {}", short(v), short(h), short(pe.src), a, b),
+                    if pat {
+                        "S6-reference-order/ref-from-loop-to-handoff-fed-by-own-all_iterations"
+                    } else {
+                        "S6-reference-order/other"
+                    },
+                    format!(
+                        "operator {} references handoff {} produced by {}: producer subgraph at position {}, user at {}{}",
+                        short(v), short(h), short(pe.src), a, b,
+                        if pat { " (the user sits in a loop and the handoff's producer chain passes through an all_iterations() that exits that loop / an enclosing or enclosed loop)" } else { "" }
+                    ),
                 ));
             }
         }
@@ -396,6 +405,43 @@ pub fn check_partition(flat: &Snap, part: &Snap) -> Vec<Finding> {
         }
     }
     out
+}
+
+/// Structural pattern of the known reference-order finding: `user` sits inside a loop L and the
+/// producer chain of the referenced handoff (walking pipe edges backwards from `producer`,
+/// `producer` included) passes through an `all_iterations()` operator whose input comes out of L,
+/// of a loop enclosing L, or of a loop nested in L.
+pub fn ref_fed_by_own_loop_exit(s: &Snap, user: u64, producer: u64) -> bool {
+    let Some(l) = s.nodes[&user].loop_ else { return false };
+    let mut seen: BTreeSet<u64> = BTreeSet::new();
+    let mut stack = vec![producer];
+    seen.insert(producer);
+    while let Some(x) = stack.pop() {
+        let n = &s.nodes[&x];
+        if n.kind == NK::Op && n.name == "all_iterations" {
+            // loop the data comes out of: loop of the (handoff-skipped) predecessor operator
+            for pe in s.preds(x) {
+                let mut p = pe.src;
+                if s.is_hoff(p) {
+                    match s.preds(p).first() {
+                        Some(e) => p = e.src,
+                        None => continue,
+                    }
+                }
+                if let Some(m) = s.nodes[&p].loop_
+                    && (s.loop_within(Some(l), m) || s.loop_within(Some(m), l))
+                {
+                    return true;
+                }
+            }
+        }
+        for pe in s.preds(x) {
+            if seen.insert(pe.src) {
+                stack.push(pe.src);
+            }
+        }
+    }
+    false
 }
 
 // ---------------------------------------------------------------------------------------------
@@ -521,15 +567,20 @@ pub fn parse_cycle_names(msg: &str) -> Option<Vec<String>> {
 /// Do the names listed in the diagnostic denote (some assignment of distinct nodes forming) a
 /// genuine cycle of `edges`? Names are matched against the nodes' pretty strings.
 pub fn named_cycle_is_real(flat: &Snap, names: &[String], edges: &[(u64, u64)]) -> bool {
+    named_cycle(flat, names, edges).is_some()
+}
+
+/// Some assignment of distinct nodes to the diagnostic's names that forms a cycle of `edges`.
+pub fn named_cycle(flat: &Snap, names: &[String], edges: &[(u64, u64)]) -> Option<Vec<u64>> {
     if names.is_empty() {
-        return false;
+        return None;
     }
     let cands: Vec<Vec<u64>> = names
         .iter()
         .map(|nm| flat.nodes.iter().filter(|(_, n)| &n.pretty == nm).map(|(&id, _)| id).collect())
         .collect();
     if cands.iter().any(|c: &Vec<u64>| c.is_empty()) {
-        return false;
+        return None;
     }
     fn rec(cands: &[Vec<u64>], cur: &mut Vec<u64>, edges: &[(u64, u64)]) -> bool {
         if cur.len() == cands.len() {
@@ -547,7 +598,40 @@ pub fn named_cycle_is_real(flat: &Snap, names: &[String], edges: &[(u64, u64)]) 
         }
         false
     }
-    rec(&cands, &mut vec![], edges)
+    let mut cur = vec![];
+    rec(&cands, &mut cur, edges).then_some(cur)
+}
+
+impl Deps {
+    /// Pattern of candidate F5: some non-delayed edge u -> (batch in loop L) re-enters L from a
+    /// node u outside L that transitively depends (same-tick dependencies) on a node inside L
+    /// (or inside a loop nested in L), i.e. root -> L -> root -> L and nested variants.
+    pub fn reenters_own_loop(&self, flat: &Snap) -> bool {
+        for e in &flat.edges {
+            if e.ddelay.is_some() {
+                continue;
+            }
+            let (sl, dl) = (flat.nodes[&e.src].loop_, flat.nodes[&e.dst].loop_);
+            let Some(l) = dl else { continue };
+            if sl != flat.loops[&l].parent {
+                continue;
+            }
+            // backwards reachability from e.src over the dependency edges
+            let mut seen: BTreeSet<u64> = BTreeSet::new();
+            let mut stack = vec![e.src];
+            while let Some(x) = stack.pop() {
+                for &(a, b) in &self.deps {
+                    if b == x && seen.insert(a) {
+                        stack.push(a);
+                    }
+                }
+            }
+            if seen.iter().any(|w| flat.loop_within(flat.nodes[w].loop_, l)) {
+                return true;
+            }
+        }
+        false
+    }
 }
 
 pub fn nodes_on_cycles(d: &Deps, with_ingress: bool) -> BTreeSet<u64> {
